@@ -27,7 +27,10 @@ prop(
     "(replace/insert/delete/other letter/other octave) of valid names up to length 8. Oracle: an independent "
     "note grammar (letter A-G any case, optional # except after E/B, octave -2..8, value <= 127). "
     "Non-trivial = the string has the outer shape letter #? -? digit (the only strings that can be mis-accepted) "
-    "or is a number round trip; distinct by the string itself. 'X-0' is not a note name. History part: "
+    "or is a number round trip; distinct by the string itself. 'X-0' is not a note name. Configuration path: every sampled string, and every "
+    "enumerated string that is a name or a number or becomes one when its blanks are dropped, is also written into a configuration file as a key's "
+    "note (\"s\" and \"s,<0-15>\"): accepted with the reference value iff it is one of the 128 names or a plain decimal 0-127 (signs, leading zeros "
+    "and other comma forms are not decided). History part: "
     "rapid-generated sequences of arbitrary 3-byte events (data bytes 0..255) are printed with Event.String in a fresh "
     "child process each; events of the note-carrying types with a note byte < 128 must print the reference name whatever "
     "was formatted before (non-trivial = a valid note printed after a byte >= 128 with the same low 7 bits).",
@@ -75,7 +78,8 @@ prop(
 prop(
     "C02", "exploration",
     "Same world generator, biased: after 70% of note presses 1-4 state-changing taps (octave/semitone/channel/mapping/multinote/cc_learning) "
-    "are inserted before the release; mappings where the held key is unmapped or mapped to another note; offsets that wrap. Oracle: every "
+    "are inserted before the release; mappings where the held key is unmapped or mapped to another note; offsets that wrap; 0-2 key-emulating "
+    "axes that may be held deflected across the actions and are shaped differently or absent in the other mappings. Oracle: every "
     "Note Off at a key's release carries exactly the channel/pitch of the Note On observed at its press (reference model when the mode "
     "suppressed the Note On), exactly one in mode off, at most one otherwise, never a Note On; every octave/semitone/channel/mapping/"
     "multinote/cc_learning press or release emits zero messages. Non-trivial = at least one key released under a different "
@@ -193,7 +197,8 @@ prop(
     "note+12*octave+semitone on the current channel when configured and in range; < 49%: off; band: unchanged; out-of-range at crossing: a later "
     "Note On of the same excursion is permitted, not required), every Note Off releases exactly the Note On that was sent, never both "
     "directions sounding, a direction without a note never sounds, velocity 1-127. Positions within 1e-9 of a threshold are resynchronised from "
-    "the wire. Non-trivial = a direction switched on; distinct by case hash.",
+    "the wire, except exactly half travel on an axis without deadzone (the float chain is exact there): it has to sound. "
+    "Non-trivial = a direction switched on; distinct by case hash.",
     [dict(test="TestC08", shards=16, checks_quick=10000, checks_thorough=60000)],
     level_text="Generated-history search against a reference state machine of the two directions.",
     level_note=_ANALOG_NOTE,
@@ -206,8 +211,10 @@ prop(
     "Corner configurations written as TOML text and sent through the real ParseData: default channel, velocity, key offsets, analog offsets, "
     "CC numbers and notes each drawn mostly at/inside their valid range (edges favoured) and 1 time in 16 just outside; whatever the parser "
     "accepts is run (rejections are counted, they are C10's business) with 1-30 steps: panic taps, bursts of up to 16 channel_up/down taps "
-    "(every channel is reached), note taps, octave taps, CC-learning, and axis events at both end stops, the centre and random in-range raws on "
-    "cc / bidirectional cc / pitch_bend / key / action axes (signed, unsigned, centred, hat). Oracle: byte-level monitor on every emitted "
+    "(every channel is reached), note taps, octave taps, CC-learning, and axis events at both end stops, the centre, random in-range raws, within "
+    "3 raw units of every deadzone edge, and walks of single raw steps across a deadzone edge coming from outside, on "
+    "cc / bidirectional cc / pitch_bend / key / action axes (ranges 0..255, -128..127, -32768..32767, -1..1, 0..1023, 0..65535, -127..127, 0..4, "
+    "1..255; centred or not; default deadzone 0-0.95, own deadzone per axis in 1/4). Oracle: byte-level monitor on every emitted "
     "message: length 3, status Note On/Off, CC or Pitch Bend (so channel 1-16), both data bytes < 0x80; no panic. Non-trivial = accepted "
     "configuration with a non-default corner (channel != 1, offset >= 15, CC >= 100, velocity 1/127) whose history contains panic or an axis event.",
     [dict(test="TestC05", shards=16, checks_quick=10000, checks_thorough=80000)],
@@ -251,7 +258,8 @@ prop(
     "missing default mapping, non-decimal note numbers) must yield an error. Note numbers with leading zeros: if accepted they mean the "
     "decimal number. TestC10Files: the file is written to one fixed path, loaded with LoadDeviceConfigs, saved again in place with a second "
     "version of exactly the same length (mapping name in other letter case, or an invalid default channel) and loaded again: each load must "
-    "equal ParseData of the text that is in the file at that moment, an invalid version is not served. TestC10Hostile: the hostile-text "
+    "equal ParseData of the text that is in the file at that moment, an invalid version is not served; the second version is dated now, like the "
+    "first, or a day before it; 5/12 of the files are padded with 63 KiB - 1.1 MiB of comment lines (start, before the last mapping, end). TestC10Hostile: the hostile-text "
     "generator of C09 with the input-independent reject-side oracle (whatever is accepted holds only values inside the MIDI ranges and an "
     "existing default mapping). Non-trivial = an axis with an optional field, or any invalidation; distinct by case hash.",
     [dict(test="TestC10", shards=16, checks_quick=12000, checks_thorough=120000),
@@ -276,6 +284,8 @@ prop(
     "(only with unusable content); valid configs of other devices; one of the four directories missing in 1/5 of the cases. Oracle: no panic; "
     "all directories present -> no error and FindConfig returns the file the precedence list names (checked by tag, type and file name) or an "
     "error when none applies; unsupported types -> UnsupportedDeviceType; missing directory -> an error or that directory treated as empty. "
+    "In 2/5 of the cases every candidate is saved again in place (same length; the served one possibly invalid now) and everything is loaded "
+    "again - the second versions dated now, like the first, a day before the first, or following first versions dated into the future. "
     "Non-trivial = noise present or a directory missing; distinct by case hash.",
     [
         dict(test="TestC12", shards=16, checks_quick=1200, checks_thorough=12000),
@@ -291,7 +301,8 @@ prop(
     "C19", "exploration",
     "A temporary tree with the four directories and pre-created files (a.toml, device.toml, notes.txt, a.toml.bak, a.toml~, mytoml, x.tom, toml, "
     "atoml, README); 1-8 operations: a single in-place write (open without truncation, one write(2)), a burst of 1-20 writes across "
-    "directories/files, or a pause; the consumer reads promptly or 1-200 ms late; then cancel while idle, with a notification pending unread, or "
+    "directories/files, a series of 64-4096 (+-2) modifications alternating between two .toml files while the consumer is busy, a flood beyond "
+    "the kernel's event queue, or a pause; the consumer reads promptly or 1-200 ms late; then cancel while idle, with a notification pending unread, or "
     "in the middle of a burst. Count-based oracle that is sound under any timing: total notifications <= in-place writes to *.toml files "
     "(so a notification for any other file is an excess), after every write/burst that touched a .toml file at least one further "
     "notification arrives within 10 s, the stream does not end before cancel, and after cancel a consumer that keeps receiving sees it end "
